@@ -28,7 +28,7 @@ COUNTS = {'quick': 160, 'thorough': 5000}
 BUDGET = {'quick': 110, 'thorough': 1500}
 TIMEOUT = 240
 SHRINK_LISTS = [['ops']]
-EXPECTED_PROBES = ['slots_checked', 'reads_checked', 'ext_links_checked', 'second_phase', 'after_reset', 'after_snapshot',
+EXPECTED_PROBES = ['digit_string_indices', 'slots_checked', 'reads_checked', 'ext_links_checked', 'second_phase', 'after_reset', 'after_snapshot',
                    'string_indices', 'interleaved_order', 'collated_models', 'zero_based_indices']
 RULE = ('plan = (stock case, add order, per-group index typing, lifecycle op list); non-trivial = the checker ran after dynamic '
         'initialisation (both addressing phases); distinct = (case, order, set of re-typed groups, op list)')
@@ -57,6 +57,10 @@ def plans(seed, tier, count):
     # zero-based numeric indices everywhere: index 0 is legal and falsy (optional links REGCP1.pll, IEEEG1.syn2 resolve through it)
     for j, c in enumerate(['ieee14/ieee14_regcp1.xlsx', 'kundur/kundur_ieeeg1.xlsx', 'kundur/kundur_full.xlsx']):
         out.insert(j, {'property': PROP, 'seed': core.H('fix10z', j), 'case': c, 'order': 'file', 'modes': 'int0',
+                       'ops': ['setup', 'pflow', 'tds_init', 'steps']})
+    # indices that are strings of digits ('2', '07'): they stay strings, whoever reads them (model, group, borrowed index fields)
+    for j, c in enumerate(['kundur/kundur_full.xlsx', 'ieee14/ieee14_full.xlsx', 'kundur/kundur_ieeest.xlsx']):
+        out.insert(j, {'property': PROP, 'seed': core.H('fix10d', j), 'case': c, 'order': 'file', 'modes': 'digits',
                        'ops': ['setup', 'pflow', 'tds_init', 'steps']})
     for j, c in enumerate(['kundur/kundur_full.xlsx', 'ieee14/ieee14_wt3.xlsx']):
         out.insert(j, {'property': PROP, 'seed': core.H('fix10c', j), 'case': c, 'order': 'file', 'modes': 'keep',
@@ -97,12 +101,13 @@ def execute(plan):
     rows = rebuild.extract(ss0)
     rng = stream(plan['seed'], 'rebuild')
     modes = {ss0.models[m].group: 'keep' for m, _ in rows} if plan['modes'] == 'keep' else (
-        {ss0.models[m].group: 'int0' for m, _ in rows} if plan['modes'] == 'int0' else None)
+        {ss0.models[m].group: plan['modes'] for m, _ in rows} if plan['modes'] in ('int0', 'digits') else None)
     rows2, maps, modes = rebuild.remap(ss0, rows, rng, modes)
     rows3 = rebuild.shuffled(rows2, rng, plan['order'])
     retyped = sorted(g for g, m in modes.items() if m != 'keep')
     probes['string_indices'] = int(any(m == 'str' for m in modes.values()))
     probes['zero_based_indices'] = int(any(m == 'int0' for m in modes.values()))
+    probes['digit_string_indices'] = int(any(m == 'digits' for m in modes.values()))
     probes['interleaved_order'] = int(plan['order'] == 'interleave')
     ss = rebuild.build(rows3)
     # storage layout: variables collated by device instead of by variable for a seeded subset of the models (ModelFlags.collate);
